@@ -352,8 +352,31 @@ def _et_3body():
     return dict(label="Kpipi-3body", mother="D+", daughters=["K-", "pi+", "pi+"], tops=tops, subs=subs, distract=distract)
 
 
+def _et_6body():
+    """six-body final state: lines in which EVERY daughter of a node is decayed while a dead-end resonance sits deeper
+    (depth 2 and 3) — the shape a 'no dead-end daughter here' shortcut in the expansion would get wrong"""
+    Ks, rho = "K*(892)bar0", "rho(770)0"
+    K1, a1 = "K(1)(1270)bar-", "a(1)(1260)+"
+    tops = [
+        N("D0", N(K1, rho, "K-"), N(a1, rho, "pi+")),
+        N("D0", N(K1, N(rho, "pi+", "pi-"), "K-"), N(a1, rho, "pi+")),
+        N("D0", N(K1, rho, "K-"), N(a1, N(rho, "pi+", "pi-"), "pi+", spin="D")),
+        N("D0", N(K1, N(Ks, "K-", "pi+"), N(rho, "pi+", "pi-")), N(a1, rho, "pi+")),
+        N("D0", N(K1, rho, "K-"), a1),
+        N("D0", K1, N(a1, rho, "pi+")),
+    ]
+    subs = {
+        rho: [N(rho, "pi+", "pi-"), N(rho, "pi+", "pi-", ls="GSpline.EFF"), N(rho, "pi-", "pi+", spin="S")],
+        a1: [N(a1, N(rho, "pi+", "pi-"), "pi+", ls="GSpline.EFF"), N(a1, rho, "pi+", spin="D")],
+        K1: [N(K1, rho, "K-"), N(K1, N(rho, "pi+", "pi-"), "K-", ls="GSpline.EFF")],
+    }
+    distract = [N("D+", N(Ks, "K-", "pi+"), "pi+")]
+    return dict(label="6body", mother="D0", daughters=["K-", "pi+", "pi-", "pi+", "pi+", "pi-"], tops=tops, subs=subs,
+                distract=distract)
+
+
 def c17_event_types():
-    return [_et_kpipipi(), _et_conj(), _et_4pi(), _et_kkpipi(), _et_3body()]
+    return [_et_kpipipi(), _et_conj(), _et_4pi(), _et_kkpipi(), _et_3body(), _et_6body()]
 
 
 OPTION_VARIANTS = [None, ("0", "start"), ("1", "start"), ("1", "end"), ("0", "end"), ("1", "middle")]
@@ -838,8 +861,15 @@ pi(1300)+_mass 0 1300 10
 FastCoherentSum::UseCartesian 1
 Dbar0{K*(892)0{K+,pi-},rho(770)0{pi-,pi+}}   0 0.5 0.1 0 -0.5 0.1
 """
+    # the same decay line as in f1 (same string form) under an event type that lists the same species in another
+    # order: anything remembered per line or per structure across reads gives this file the positions of f1
+    f6 = """EventType D0 pi+ K- pi- pi+
+FastCoherentSum::UseCartesian 1
+D0{K*(892)bar0{K-,pi+},rho(770)0{pi+,pi-}}      0 0.5 0.1 0 -0.5 0.1
+D0[P]{rho(1450)0{pi+,pi-},K*(892)bar0{K-,pi+}}  0 0.642781 0.00570074 0 1.69828 0.00900026
+"""
     return [("vv-polar", f1), ("cascade-spline-cartesian", f2), ("swave-kmatrix-focus-opt0", f3),
-            ("4pi-tensor", f4), ("conj-oneline-cartesian", f5)]
+            ("same-lines-permuted-eventtype-cartesian", f6), ("4pi-tensor", f4), ("conj-oneline-cartesian", f5)]
 
 
 # ------------------------------------------------------------------------------------------------------
